@@ -244,7 +244,8 @@ def load_pristine(modname):
     if modname in _pristine:
         return _pristine[modname]
     import os
-    path = os.path.join('/repo', *modname.split('.')) + '.py'
+    from vxlib.paths import REPO
+    path = os.path.join(REPO, *modname.split('.')) + '.py'
     with open(path, 'rb') as f:
         src = f.read()
     code = compile(src, path, 'exec', dont_inherit=True)
@@ -261,4 +262,5 @@ def load_pristine(modname):
 def _parent_path(modname):
     import os
     parts = modname.split('.')[:-1]
-    return os.path.join('/repo', *parts)
+    from vxlib.paths import REPO
+    return os.path.join(REPO, *parts)
